@@ -39,6 +39,11 @@ PY
   done
 }
 run_demo() { (cd "$WT" && timeout 600 bash -c "$demo_cmd") >"$1" 2>&1; echo $?; }
+# optional base: patches not yet committed in /repo (e.g. a builder's own repo-patches/*.patch) that the
+# seeded change is to be judged on top of. SEED_PRE="a.patch b.patch" (absolute paths), applied in order.
+for pp in ${SEED_PRE:-}; do
+  git apply --index "$pp" 2>/tmp/seedcheck-$$-pre.log || { res pre_patch_applies "no:$pp"; cat /tmp/seedcheck-$$-pre.log; exit 1; }
+done
 # --- without the change
 place_demo
 rc0=$(run_demo /tmp/seedcheck-$$-without.log)
